@@ -224,20 +224,63 @@ theorem Prov.runClosure {T U : List Nat} {s : Sys} (h : Prov T U s) (t : Nat) (c
 
 /-! ### the collector's drain and cycle -/
 
+theorem splitSecond_ok {T : List Nat} (cb : Bool) (c1 c2 : Coll) (cm : List Nat) (l : List Cmd) (h : ∀ c ∈ l, CmdOk T c) :
+    (∀ c ∈ (splitSecond cb c1 c2 cm l).1, CmdOk T c) ∧ ∀ c ∈ (splitSecond cb c1 c2 cm l).2, CmdOk T c := by
+  induction l with
+  | nil => exact ⟨by simp [splitSecond], by simp [splitSecond]⟩
+  | cons x xs ih =>
+    obtain ⟨i1, i2⟩ := ih (fun c hc => h c (by simp [hc]))
+    have hx := h x (by simp)
+    cases x with
+    | start id =>
+      simp only [splitSecond]
+      exact ⟨by intro c hc; simp only [List.mem_cons] at hc; rcases hc with rfl | hc; trivial; exact i1 c hc, i2⟩
+    | commit id => simp only [splitSecond]; exact ⟨i1, i2⟩
+    | drop id =>
+      simp only [splitSecond]
+      split
+      · exact ⟨by intro c hc; simp only [List.mem_cons] at hc; rcases hc with rfl | hc; trivial; exact i1 c hc, i2⟩
+      · exact ⟨i1, by intro c hc; simp only [List.mem_cons] at hc; rcases hc with rfl | hc; trivial; exact i2 c hc⟩
+    | submit sp tok =>
+      simp only [splitSecond]
+      refine ⟨?_, ?_⟩
+      · split
+        · exact i1
+        · intro c hc
+          simp only [List.mem_cons] at hc
+          rcases hc with rfl | hc
+          · intro it hit; exact hx it (List.mem_filter.mp hit).1
+          · exact i1 c hc
+      · split
+        · exact i2
+        · intro c hc
+          simp only [List.mem_cons] at hc
+          rcases hc with rfl | hc
+          · intro it hit; exact hx it (List.mem_filter.mp hit).1
+          · exact i2 c hc
+
 theorem Prov.finishCycle {T U : List Nat} {s : Sys} (h : Prov T U s) (kept : List (Nat × Ring Cmd)) (buf buf2 : List Cmd)
     (hk : RingsOk T kept) (hb : ∀ c ∈ buf, CmdOk T c) (hb2 : ∀ c ∈ buf2, CmdOk T c) :
     Prov T U (s.finishCycle kept buf buf2).1 ∧ ∀ rs, (s.finishCycle kept buf buf2).2 = some rs → RecsOk T rs := by
-  unfold Sys.finishCycle
-  have hbatch : ∀ c ∈ s.deferred.map Cmd.commit ++ buf ++ buf2.filter (fun c => !c.isCommit), CmdOk T c := by
+  have hsplit : (∀ c ∈ (s.cycleSplit buf buf2).1, CmdOk T c) ∧ ∀ c ∈ (s.cycleSplit buf buf2).2, CmdOk T c := by
+    unfold Sys.cycleSplit
+    exact splitSecond_ok (T := T) _ _ _ _ buf2 hb2
+  have hbatch : ∀ c ∈ s.cycleBatch buf buf2, CmdOk T c := by
     intro c hc
-    simp only [List.mem_append, List.mem_map, List.mem_filter] at hc
-    rcases hc with (⟨id, _, rfl⟩ | hc) | ⟨hc, _⟩
+    simp only [Sys.cycleBatch, List.mem_append, List.mem_map] at hc
+    rcases hc with (⟨id, _, rfl⟩ | hc | hc) | hc
     · trivial
+    · exact h.carried c hc
     · exact hb c hc
-    · exact hb2 c hc
+    · exact hsplit.1 c hc
   have hc := cycleProcess_ok T id s.coll _ h.coll hbatch
+  unfold Sys.finishCycle
   dsimp only
-  exact ⟨⟨h.spans, h.adapters, h.threads, hk, (fun cs hcs => nomatch hcs), hc.1⟩, hc.2⟩
+  refine ⟨⟨h.spans, h.adapters, h.threads, hk, (fun cs hcs => nomatch hcs), hc.1, ?_⟩, hc.2⟩
+  show ∀ c ∈ (if s.coll.hasReporter then (s.cycleSplit buf buf2).2 else []), CmdOk T c
+  split
+  · exact hsplit.2
+  · intro c hc; cases hc
 
 theorem drainAll_ok {T : List Nat} (rxs : List (Nat × Ring Cmd)) (h : RingsOk T rxs) :
     RingsOk T (drainAll rxs).1 ∧ ∀ c ∈ (drainAll rxs).2, CmdOk T c := by
@@ -275,7 +318,7 @@ def CycOk (T : List Nat) (cs : CycState) : Prop :=
 
 theorem Prov.withCyc {T U : List Nat} {s : Sys} (h : Prov T U s) (cs : CycState)
     (hcs : CycOk T cs) : Prov T U { s with cyc := some cs } :=
-  ⟨h.spans, h.adapters, h.threads, h.rxs, (fun cs' e => by cases e; exact hcs), h.coll⟩
+  ⟨h.spans, h.adapters, h.threads, h.rxs, (fun cs' e => by cases e; exact hcs), h.coll, h.carried⟩
 
 theorem CycOk.afterFirst {T : List Nat} {cs : CycState} (h : CycOk T cs) : CycOk T cs.afterFirst.1 := by
   rcases CycState.afterFirst_cases cs with e | e <;> rw [e] <;> exact h
